@@ -309,6 +309,23 @@ impl Space for CalSweep {
                 out.lockstep("other.with({monthCode, day}) within the calendar year", &Ok((y, m, d)), &got, same, || wa(format!("{delta:+}d")));
             }
         }
+        // 6b. changing the calendar of a value that already has a calendar keeps its ISO date (and time, and
+        // instant), for the date, the date-time and the zoned date-time
+        for target_id in ["iso8601", CALENDARS[(ci + 1) % CALENDARS.len()].0, "hebrew", "roc"] {
+            let target = Calendar::from_str(target_id).expect("calendar");
+            let ta = || attrs(vec![("fields", format!("{f:?}")), ("target_calendar", target_id.to_string())]);
+            let got = call(|| date.with_calendar(target.clone()));
+            out.lockstep("PlainDate::with_calendar keeps the ISO date", &Ok((y, m, d)), &got, |a, b| (b.iso_year() as i64, b.iso_month(), b.iso_day()) == *a && b.calendar().identifier() == target.identifier(), ta);
+            if day > MIN_DAY {
+                let got = call(|| temporal_rs::PlainDateTime::try_new(y as i32, m, d, 12, 34, 56, 789, 12, 345, cal.clone())?.with_calendar(target.clone()));
+                out.lockstep("PlainDateTime::with_calendar keeps the ISO date and time", &Ok((y, m, d)), &got, |a, b| (b.iso_year() as i64, b.iso_month(), b.iso_day()) == *a && (b.hour(), b.minute(), b.second(), b.millisecond(), b.microsecond(), b.nanosecond()) == (12, 34, 56, 789, 12, 345) && b.calendar().identifier() == target.identifier(), ta);
+            }
+            let ns = day as i128 * tmc_ref::r1::NS_PER_DAY + 45_296_789_012_345;
+            if ns.abs() <= tmc_ref::r1::MAX_INSTANT_NS {
+                let got = call(|| temporal_rs::ZonedDateTime::try_new(ns, cal.clone(), temporal_rs::TimeZone::try_from_str("+05:30")?)?.with_calendar(target.clone()));
+                out.lockstep("ZonedDateTime::with_calendar keeps the instant", &Ok(ns), &got, |a, b| b.epoch_nanoseconds().as_i128() == *a && b.calendar().identifier() == target.identifier(), ta);
+            }
+        }
         // 7. successor law: the next ISO day is the next calendar day
         if day < MAX_DAY {
             let (ny, nm, nd) = civil_from_days(day + 1);
